@@ -167,6 +167,7 @@ package kvgraph
 //@   option load=kvindex,kvi
 //@   modifies MapD.Str MapN KV.
 //@   requires nonnil: kgraph != nil && kgraph.idx != nil && kgraph.idx.Fields != nil && kgraph.idx.KV != nil
+//@   requires rep: forall f:Str :: has(kgraph.idx.Fields, f) ==> (exists k:Str :: kvhas(k) && hasprefix(k, "f") && slnth(bsplit(k, sep0), 1) == f)
 //@   loop 1 invariant kvframe: forall k:Str :: !idxkey(k) ==> ((kvhas(k) <==> old(kvhas(k))) && kvval(k) == old(kvval(k)))
 //@   ensures kvframe: forall k:Str :: !idxkey(k) ==> ((kvhas(k) <==> old(kvhas(k))) && kvval(k) == old(kvval(k)))
 //@   let reg = kgraph.idx.Fields
@@ -294,6 +295,7 @@ package kvgraph
 //@   option globals=kvgraph
 //@   modifies KV. TS. MapD.Str MapN
 //@   requires nonnil: kgraph != nil && kgraph.kv != nil && kgraph.ts != nil && kgraph.idx != nil && kgraph.idx.Fields != nil && kgraph.idx.KV != nil
+//@   requires rep: forall f:Str :: has(kgraph.idx.Fields, f) ==> (exists k:Str :: kvhas(k) && hasprefix(k, "f") && slnth(bsplit(k, sep0), 1) == f)
 //@   let vp = VertexListPrefix(graph)
 //@   let ep = EdgeListPrefix(graph)
 //@   let sp = SrcEdgeListPrefix(graph)
